@@ -295,4 +295,140 @@ theorem replayLoads_invW {T : List Name} {files : Files} (hH : inHW T files = tr
     | err e => rw [hx] at h; exact replayLoads_invW hH ls _ h
     | ok r => rw [hx] at h; exact replayLoads_invW hH ls _ h
 
+/-! ## the cache-after functions agree with the preparation where it succeeds (every file set) -/
+
+def PCAgree (J : PJ) (JC : PCJ) : Prop :=
+  ∀ inl name c r, J inl name c = .ok r → JC inl name c = r.2
+
+theorem bind_wrap_ok {x : Res (List Node × Cache)} {g : List Node → List Node} {r : List Node × Cache}
+    (h : (x.bind fun r => .ok (g r.1, r.2)) = .ok r) : ∃ r0, x = .ok r0 ∧ r.2 = r0.2 := by
+  cases x with
+  | fuel => simp at h
+  | err e => simp at h
+  | ok r0 =>
+    simp only [Res.bind_ok, Res.ok.injEq] at h
+    exact ⟨r0, rfl, by rw [← h]⟩
+
+theorem pcL_agree (files : Files) {J : PJ} {JC : PCJ} (hJ : PCAgree J JC) (inl : List Name) :
+    ∀ (ns : List Node) (c : Cache) (r : List Node × Cache), prepL files J inl ns c = .ok r → pcL files J JC inl ns c = r.2
+  | [], c, r, h => by cases h; rfl
+  | n :: ns, c, r, h => by
+    rw [prepL_cons] at h
+    rw [pcL_cons]
+    cases hn : prepN files J inl n c with
+    | fuel => simp [hn] at h
+    | err e => simp [hn] at h
+    | ok r1 =>
+      simp only [hn, Res.bind_ok] at h ⊢
+      obtain ⟨r0, h0, he⟩ := bind_wrap_ok (g := fun b' => r1.1 ++ b') h
+      rw [he]; exact pcL_agree files hJ inl ns r1.2 r0 h0
+
+
+theorem pcN_agree (files : Files) {J : PJ} {JC : PCJ} (hJ : PCAgree J JC) (inl : List Name) :
+    ∀ (n : Node) (c : Cache) (r : List Node × Cache), prepN files J inl n c = .ok r → pcN files J JC inl n c = r.2
+  | .text s, c, r, h => by cases h; rfl
+  | .var x, c, r, h => by cases h; rfl
+  | .call m, c, r, h => by cases h; rfl
+  | .select, c, r, h => by cases h; rfl
+  | .elem t b, c, r, h => by
+    rw [prepN_elem] at h; obtain ⟨r0, h0, he⟩ := bind_wrap_ok (g := fun b' => [.elem t b']) h
+    rw [pcN_elem, he]; exact pcL_agree files hJ inl b c r0 h0
+  | .cond cd b, c, r, h => by
+    rw [prepN_cond] at h; obtain ⟨r0, h0, he⟩ := bind_wrap_ok (g := fun b' => [.cond cd b']) h
+    rw [pcN_cond, he]; exact pcL_agree files hJ inl b c r0 h0
+  | .loop x xs b, c, r, h => by
+    rw [prepN_loop] at h; obtain ⟨r0, h0, he⟩ := bind_wrap_ok (g := fun b' => [.loop x xs b']) h
+    rw [pcN_loop, he]; exact pcL_agree files hJ inl b c r0 h0
+  | .defn m b, c, r, h => by
+    rw [prepN_defn] at h; obtain ⟨r0, h0, he⟩ := bind_wrap_ok (g := fun b' => [.defn m b']) h
+    rw [pcN_defn, he]; exact pcL_agree files hJ inl b c r0 h0
+  | .matchT t b, c, r, h => by
+    rw [prepN_matchT] at h; obtain ⟨r0, h0, he⟩ := bind_wrap_ok (g := fun b' => [.matchT t b']) h
+    rw [pcN_matchT, he]; exact pcL_agree files hJ inl b c r0 h0
+  | .inlined b, c, r, h => by
+    rw [prepN_inlined] at h; obtain ⟨r0, h0, he⟩ := bind_wrap_ok (g := fun b' => [.inlined b']) h
+    rw [pcN_inlined, he]; exact pcL_agree files hJ inl b c r0 h0
+  | .include (.dyn ps) cls hasFb fb pos, c, r, h => by
+    rw [prepN_dyn] at h
+    obtain ⟨r0, h0, he⟩ := bind_wrap_ok (g := fun b' => [.include (.dyn ps) cls hasFb b' pos]) h
+    rw [pcN_dyn, he]; exact pcL_agree files hJ inl fb c r0 h0
+  | .include (.static hh) cls hasFb fb pos, c, r, h => by
+    rw [prepN_static] at h
+    rw [pcN_static]
+    cases hres : resolve pos hh with
+    | none => simp [hres] at h
+    | some name =>
+      simp only [hres] at h ⊢
+      cases hfind : files.find name with
+      | none =>
+        simp only [hfind] at h ⊢
+        cases hasFb with
+        | true =>
+          simp only [if_true] at h
+          exact pcL_agree files hJ inl fb c r h
+        | false =>
+          simp only [Bool.false_eq_true, if_false] at h
+          obtain ⟨r0, h0, he⟩ := bind_wrap_ok (g := fun b' => [.include (.static hh) cls false b' pos]) h
+          rw [he]; exact pcL_agree files hJ inl fb c r0 h0
+      | some f =>
+        simp only [hfind] at h ⊢
+        by_cases hk : f.kind = cls
+        · simp only [hk, ne_eq, not_true_eq_false, if_false] at h ⊢
+          cases hb : f.body with
+          | none => simp [hb] at h
+          | some body =>
+            simp only [hb] at h ⊢
+            by_cases hin : name ∈ inl
+            · simp only [hin, if_true] at h ⊢
+              obtain ⟨r0, h0, he⟩ := bind_wrap_ok (g := fun b' => [.include (.static hh) cls hasFb b' pos]) h
+              rw [he]; exact pcL_agree files hJ inl fb c r0 h0
+            · simp only [hin, if_false] at h ⊢
+              obtain ⟨r0, h0, he⟩ := bind_wrap_ok (g := fun b' => [.inlined b']) h
+              rw [he]; exact hJ _ _ _ _ h0
+        · simp [hk] at h
+
+theorem pcT_agree (files : Files) : ∀ f : Nat, PCAgree (prepT files f) (pcT files f)
+  | 0 => by intro inl name c r h; simp [prepT] at h
+  | f + 1 => by
+    intro inl name c r h
+    simp only [prepT] at h
+    simp only [pcT]
+    cases hl : c.lookup name with
+    | some b => simp only [hl] at h; cases h; rfl
+    | none =>
+      simp only [hl] at h
+      cases hfind : files.find name with
+      | none => simp [hfind] at h
+      | some ff =>
+        obtain ⟨k, fb⟩ := ff
+        cases fb with
+        | none => simp [hfind] at h
+        | some body =>
+          simp only [hfind] at h
+          cases hx : prepL files (prepT files f) inl body c with
+          | fuel => simp [hx] at h
+          | err e => simp [hx] at h
+          | ok r0 =>
+            simp only [hx, Res.bind_ok, Res.ok.injEq] at h
+            simp only [hx]
+            rw [← h]
+
+/-- where the load returns, the cache-after function is the cache it returns -/
+theorem loadInlC_agree (files : Files) (name : Name) (cls : Kind) (c : Cache) (r : List Node × Cache)
+    (h : loadInl files name cls c = .ok r) : loadInlC files name cls c = r.2 := by
+  simp only [loadInl] at h
+  simp only [loadInlC]
+  cases hfind : files.find name with
+  | none => simp [hfind] at h
+  | some f =>
+    simp only [hfind] at h ⊢
+    by_cases hk : f.kind = cls
+    · simp only [hk, ne_eq, not_true_eq_false, if_false] at h ⊢
+      cases hb : f.body with
+      | none => simp [hb] at h
+      | some body =>
+        simp only [hb] at h ⊢
+        exact pcT_agree files _ _ _ _ _ h
+    · simp [hk] at h
+
 end Genshi.Incl
